@@ -282,3 +282,452 @@ Proof.
   destruct t as [nm bl ks]. unfold write_order. rewrite bfs_unfold. cbn [tsize wgo app map d_pos].
   f_equal. rewrite <- wgo_go. unfold child_items. rewrite child_pos_map, qsize_child. reflexivity.
 Qed.
+
+(* ---- 2. order of the written table ------------------------------------------------------------ *)
+
+(* strict (level, parent number, identifier) order; identifiers compared like Python bytes *)
+Definition key_lt (a b : key) : Prop :=
+  (fst (fst a) < fst (fst b))%nat \/
+  (fst (fst a) = fst (fst b) /\
+   (snd (fst a) < snd (fst b) \/ (snd (fst a) = snd (fst b) /\ name_ltb (snd a) (snd b) = true))).
+
+Lemma key_ltb_spec a b : key_ltb name_ltb a b = true <-> key_lt a b.
+Proof.
+  destruct a as [[l1 p1] n1], b as [[l2 p2] n2]. unfold key_ltb, key_lt. cbn [fst snd].
+  destruct (name_ltb n1 n2); lia.
+Qed.
+
+Lemma name_ltb_trans a : forall b c,
+  name_ltb a b = true -> name_ltb b c = true -> name_ltb a c = true.
+Proof.
+  induction a as [|x a IH]; intros [|y b] [|z c]; cbn [name_ltb]; try congruence.
+  destruct (x <? y) eqn:E1; destruct (y <? x) eqn:E2; destruct (y <? z) eqn:E3;
+  destruct (z <? y) eqn:E4; destruct (x <? z) eqn:E5; destruct (z <? x) eqn:E6;
+  intros H1 H2; try congruence; try lia; eauto.
+Qed.
+
+Lemma names_sorted_strong l :
+  names_sortedb l = true -> StronglySorted (fun a b => name_ltb a b = true) l.
+Proof.
+  induction l as [|a r IH]; intros H; [constructor|]. cbn [names_sortedb] in H.
+  apply andb_prop in H. destruct H as [H1 H2]. specialize (IH H2). constructor; [exact IH|].
+  destruct r as [|b r']; [constructor|]. constructor; [exact H1|].
+  apply StronglySorted_inv in IH. destruct IH as [_ Hb]. eapply Forall_impl; [|exact Hb].
+  intros c Hc. eapply name_ltb_trans; eassumption.
+Qed.
+
+Definition ikey (it : qitem) : key := (length (ipos it), ipn it, tname (itree it)).
+Definition ilt (a b : qitem) : Prop := key_lt (ikey a) (ikey b).
+Definition rlt (a b : dirrec) : Prop := key_lt (rkey a) (rkey b).
+
+Lemma child_items_sorted i ks idx pos path :
+  StronglySorted (fun a b => name_ltb a b = true) (map tname ks) ->
+  StronglySorted ilt (child_items_from i ks idx pos path).
+Proof.
+  revert i; induction ks as [|k ks IH]; intros i H; [constructor|]. cbn [map] in H.
+  apply StronglySorted_inv in H. destruct H as [Hs Hf]. cbn [child_items_from].
+  constructor; [apply IH; exact Hs|]. apply Forall_forall. intros it Hin.
+  apply in_child_items in Hin. destruct Hin as (k' & j & -> & Hn & _).
+  apply nth_error_In in Hn. rewrite Forall_forall in Hf.
+  specialize (Hf (tname k') (in_map tname _ _ Hn)).
+  unfold ilt, ikey, key_lt, ipos, ipn, itree; cbn [fst snd]. rewrite !app_length. cbn [length].
+  right. split; [reflexivity|]. right. split; [reflexivity|exact Hf].
+Qed.
+
+Lemma key_lt_level_succ k0 l p n :
+  key_lt k0 (l, p, n) -> forall p' n', key_lt k0 (S l, p', n').
+Proof. unfold key_lt. cbn [fst snd]. intros H p' n'. left. lia. Qed.
+
+Lemma go_lower f q idx cur : (qsize q <= f)%nat ->
+  forall k0, (forall it, In it q -> key_lt k0 (ikey it)) ->
+  forall r, In r (fst (go f q idx cur)) -> key_lt k0 (rkey r).
+Proof.
+  revert f q idx cur.
+  apply (go_ind (fun q idx cur res => forall k0, (forall it, In it q -> key_lt k0 (ikey it)) ->
+           forall r, In r (fst res) -> key_lt k0 (rkey r))).
+  - intros idx cur k0 _ r [].
+  - intros f nm bl ks pn pos path q idx cur Hf IH k0 Hk r H. cbn [fst] in H.
+    destruct H as [<-|H].
+    + exact (Hk _ (or_introl eq_refl)).
+    + apply (IH k0); [|exact H]. intros it Hin. apply in_app_or in Hin.
+      destruct Hin as [Hin|Hin]; [apply Hk; right; exact Hin|].
+      apply in_child_items in Hin. destruct Hin as (k & j & -> & _ & _).
+      unfold ikey, ipos, ipn, itree; cbn [fst snd]. rewrite app_length, Nat.add_1_r.
+      apply (key_lt_level_succ k0 (length pos) pn nm). exact (Hk _ (or_introl eq_refl)).
+Qed.
+
+(* invariant of the deque: sorted by key, parent numbers already issued, at most two levels *)
+Definition qinv (q : list qitem) (idx : Z) : Prop :=
+  StronglySorted ilt q /\ Forall (fun it => ipn it < idx) q /\
+  (forall h q', q = h :: q' ->
+     Forall (fun it => (length (ipos it) <= S (length (ipos h)))%nat) q') /\
+  Forall (fun it => sorted_tree (itree it) = true) q.
+
+Lemma StronglySorted_app {A} (R : A -> A -> Prop) a b :
+  StronglySorted R a -> StronglySorted R b -> (forall x y, In x a -> In y b -> R x y) ->
+  StronglySorted R (a ++ b).
+Proof.
+  induction a as [|x a IH]; intros Ha Hb H; [exact Hb|]. cbn [app].
+  apply StronglySorted_inv in Ha. destruct Ha as [Ha Hf]. constructor.
+  - apply IH; auto. intros; apply H; [right|]; assumption.
+  - apply Forall_app. split; [exact Hf|]. apply Forall_forall. intros y Hy.
+    apply H; [left; reflexivity|exact Hy].
+Qed.
+
+Lemma qinv_step nm bl ks pn pos path q idx :
+  qinv ((Node nm bl ks, pn, pos, path) :: q) idx ->
+  qinv (q ++ child_items ks idx pos path) (idx + 1).
+Proof.
+  intros (Hs & Hp & Hl & Ht). apply StronglySorted_inv in Hs. destruct Hs as [Hs Hh].
+  apply Forall_cons_iff in Hp. destruct Hp as [_ Hp].
+  apply Forall_cons_iff in Ht. destruct Ht as [Ht0 Ht]. specialize (Hl _ _ eq_refl).
+  unfold itree in Ht0; cbn [fst sorted_tree] in Ht0. apply andb_prop in Ht0.
+  destruct Ht0 as [Hn Hk]. rewrite Forall_forall in Hh, Hp, Hl.
+  change (ipos (Node nm bl ks, pn, pos, path)) with pos in Hl.
+  assert (Hc : forall it, In it (child_items ks idx pos path) ->
+            length (ipos it) = S (length pos) /\ ipn it = idx /\ sorted_tree (itree it) = true).
+  { intros it Hin. apply in_child_items in Hin. destruct Hin as (k & j & -> & Hnth & _).
+    unfold ipos, ipn, itree; cbn [fst snd]. rewrite app_length, Nat.add_1_r.
+    repeat split. apply nth_error_In in Hnth. rewrite forallb_forall in Hk. apply Hk, Hnth. }
+  assert (Hlev : forall h', In h' q -> (length pos <= length (ipos h'))%nat).
+  { intros h' Hin. specialize (Hh h' Hin). unfold ilt, ikey, key_lt, ipos in *.
+    cbn [fst snd] in Hh. lia. }
+  split; [|split; [|split]].
+  - apply StronglySorted_app;
+      [exact Hs|apply child_items_sorted, names_sorted_strong, Hn|].
+    intros x y Hx Hy. destruct (Hc y Hy) as (Ly & Py & _). specialize (Hl x Hx).
+    specialize (Hp x Hx). unfold ilt, ikey, key_lt. cbn [fst snd]. rewrite Ly, Py.
+    destruct (Nat.eq_dec (length (ipos x)) (S (length pos))) as [E|E];
+      [right; split; [exact E|left; exact Hp]|left; lia].
+  - apply Forall_app; split; apply Forall_forall; intros x Hx.
+    + specialize (Hp x Hx). cbn beta. lia.
+    + destruct (Hc x Hx) as (_ & E & _). cbn beta. lia.
+  - intros h q' E. destruct q as [|h' q'']; cbn [app] in E.
+    + apply Forall_forall. intros x Hx.
+      assert (H1 : In h (child_items ks idx pos path)) by (rewrite E; left; reflexivity).
+      assert (H2 : In x (child_items ks idx pos path)) by (rewrite E; right; exact Hx).
+      destruct (Hc h H1) as (E1 & _), (Hc x H2) as (E2 & _). lia.
+    + injection E as <- <-. pose proof (Hlev h' (or_introl eq_refl)) as Hh'.
+      apply Forall_app; split; apply Forall_forall; intros x Hx.
+      * specialize (Hl x (or_intror Hx)). lia.
+      * destruct (Hc x Hx) as (E2 & _). lia.
+  - apply Forall_app; split; [exact Ht|]. apply Forall_forall; intros x Hx. apply (Hc x Hx).
+Qed.
+
+Lemma go_sorted f q idx cur : (qsize q <= f)%nat -> qinv q idx ->
+  StronglySorted rlt (fst (go f q idx cur)).
+Proof.
+  revert f q idx cur.
+  apply (go_ind (fun q idx cur res => qinv q idx -> StronglySorted rlt (fst res))).
+  - intros; constructor.
+  - intros f nm bl ks pn pos path q idx cur Hf IH Hq. cbn [fst]. constructor.
+    + apply IH. apply qinv_step with (1 := Hq).
+    + apply Forall_forall. intros r Hr. unfold rlt.
+      refine (go_lower f _ _ _ Hf (rkey (mk_dirrec idx pn nm bl cur pos path)) _ r Hr).
+      intros it Hin. destruct Hq as (Hs & _). apply StronglySorted_inv in Hs.
+      destruct Hs as [_ Hh]. rewrite Forall_forall in Hh. apply in_app_or in Hin.
+      destruct Hin as [Hin|Hin]; [exact (Hh it Hin)|].
+      apply in_child_items in Hin. destruct Hin as (k & j & -> & _ & _).
+      unfold key_lt, rkey, ikey, ipos; cbn [fst snd d_pos]. rewrite app_length. left. cbn. lia.
+Qed.
+
+Lemma SS_nth {A} (R : A -> A -> Prop) l : StronglySorted R l ->
+  forall i j a b, (i < j)%nat -> nth_error l i = Some a -> nth_error l j = Some b -> R a b.
+Proof.
+  induction 1 as [|x l Hs IH Hf]; intros i j a b Hij Ha Hb; [destruct i; discriminate|].
+  destruct j as [|j]; [lia|]. cbn [nth_error] in Hb. destruct i as [|i].
+  - cbn in Ha. injection Ha as <-. rewrite Forall_forall in Hf. apply Hf.
+    eapply nth_error_In. exact Hb.
+  - cbn [nth_error] in Ha. apply (IH i j); [lia|assumption|assumption].
+Qed.
+
+Lemma bfs_sorted start t : sorted_tree t = true -> StronglySorted rlt (bfs start t).
+Proof.
+  destruct t as [nm bl ks]. intros Hst. rewrite bfs_unfold.
+  assert (Hq : qinv (child_items ks 1 [] []) 2).
+  { apply (qinv_step nm bl ks 0 [] [] [] 1). repeat split.
+    - repeat constructor.
+    - repeat constructor.
+    - intros h q' E. injection E as <- <-. constructor.
+    - repeat constructor. exact Hst. }
+  constructor; [apply go_sorted; [lia|exact Hq]|].
+  apply Forall_forall. intros r Hr. unfold rlt.
+  refine (go_lower _ _ _ _ (le_n _) (rkey (mk_dirrec 1 1 nm bl start [] [])) _ r Hr).
+  intros it Hin. apply in_child_items in Hin. destruct Hin as (k & j & -> & _ & _).
+  unfold key_lt, rkey, ikey, ipos; cbn. lia.
+Qed.
+
+(* THEOREM 2.  The code applies NO sort: the written order is the visiting order of a second
+   breadth-first walk.  It is strictly increasing in (level, parent number, identifier) with the
+   identifier order of Python bytes, and the record at (1-based) position i is directory number i. *)
+Theorem ptable_order start t : sorted_tree t = true ->
+  StronglySorted rlt (bfs start t) /\
+  (forall i j a b, (i < j)%nat -> nth_error (bfs start t) i = Some a ->
+     nth_error (bfs start t) j = Some b -> key_lt (rkey a) (rkey b)) /\
+  write_order t = map d_pos (bfs start t) /\
+  (forall i r, nth_error (bfs start t) i = Some r -> d_num r = Z.of_nat i + 1) /\
+  ptable start t = map rec_tuple (bfs start t).
+Proof.
+  intros Hs. pose proof (bfs_sorted start t Hs) as H. split; [exact H|].
+  split; [exact (SS_nth _ _ H)|]. split; [apply write_order_is_bfs|].
+  split; [apply bfs_nth_num|reflexivity].
+Qed.
+
+(* ---- ECMA-119 6.9.1 identifier comparison (shorter identifier padded with 0x20) ------------ *)
+
+Definition ge32 (n : list Z) : Prop := Forall (fun x => 32 <= x) n.
+
+Lemma vs_spaces_ge a : ge32 a -> vs_spaces a <> Lt.
+Proof.
+  induction 1 as [|x a Hx Ha IH]; cbn [vs_spaces]; [discriminate|].
+  destruct (Z.compare_spec x 32); [exact IH|lia|discriminate].
+Qed.
+
+Lemma name_lt_ecma a : forall b, ge32 a -> ge32 b -> name_ltb a b = true -> ecma_cmp a b <> Gt.
+Proof.
+  induction a as [|x a IH]; intros [|y b] Ha Hb H; cbn [name_ltb ecma_cmp] in *;
+    try discriminate.
+  - pose proof (vs_spaces_ge _ Hb) as Hv. destruct (vs_spaces (y :: b)); cbn; congruence.
+  - inversion Ha; inversion Hb; subst. destruct (Z.compare_spec x y) as [E|E|E].
+    + subst. rewrite Z.ltb_irrefl in H. apply IH; assumption.
+    + discriminate.
+    + destruct (x <? y) eqn:E1; [lia|]. destruct (y <? x) eqn:E2; [discriminate|lia].
+Qed.
+
+Definition key_le_ecma (a b : key) : Prop :=
+  (fst (fst a) < fst (fst b))%nat \/
+  (fst (fst a) = fst (fst b) /\
+   (snd (fst a) < snd (fst b) \/ (snd (fst a) = snd (fst b) /\ ecma_cmp (snd a) (snd b) <> Gt))).
+
+(* the written order IS the ECMA-119 order whenever the identifiers that get compared (same
+   level, same parent) only use bytes >= 0x20 -- true of d-characters and d1-characters *)
+Theorem ptable_order_ecma start t : sorted_tree t = true ->
+  forall i j a b, (i < j)%nat -> nth_error (bfs start t) i = Some a ->
+    nth_error (bfs start t) j = Some b ->
+    (length (d_pos a) = length (d_pos b) -> ge32 (d_name a) /\ ge32 (d_name b)) ->
+    key_le_ecma (rkey a) (rkey b).
+Proof.
+  intros Hs i j a b Hij Ha Hb Hge.
+  destruct (ptable_order start t Hs) as (_ & H & _). specialize (H i j a b Hij Ha Hb).
+  unfold key_lt, key_le_ecma, rkey in *. cbn [fst snd] in *.
+  destruct H as [H|(El & [H|(Ep & H)])]; [left; exact H|right; split; [exact El|left; exact H]|].
+  right. split; [exact El|]. right. split; [exact Ep|].
+  destruct (Hge El) as [G1 G2]. apply name_lt_ecma; assumption.
+Qed.
+
+(* /A and /A\x01 (accepted by PyCdlib.new(interchange_level=4)): pycdlib writes A (number 2)
+   before A\x01 (number 3); ECMA-119 pads A to "A " and 0x20 > 0x01, so A\x01 must come first.
+   Reproduced on the real library: the L table of that image is
+   [\x00 ; A parent 1 ; A\x01 parent 1 ; Y parent 2 ; X parent 3]. *)
+Definition ecma_witness : dtree :=
+  Node [0] 1 [Node [65] 1 [Node [89] 1 []]; Node [65; 1] 1 [Node [88] 1 []]].
+
+Theorem ptable_order_ecma_refuted : exists t start,
+  sorted_tree t = true /\
+  ~ (forall i j a b, (i < j)%nat -> nth_error (bfs start t) i = Some a ->
+       nth_error (bfs start t) j = Some b -> key_le_ecma (rkey a) (rkey b)).
+Proof.
+  exists ecma_witness, 24. split; [reflexivity|]. intros H.
+  specialize (H 1%nat 2%nat _ _ (le_n _) eq_refl eq_refl).
+  unfold key_le_ecma in H. cbn in H.
+  destruct H as [H|(_ & [H|(_ & H)])]; [lia|lia|apply H; reflexivity].
+Qed.
+
+(* ---- 3./4. sums over the directories, extents ----------------------------------------------- *)
+
+Fixpoint tree_sum (g : list Z -> Z -> Z) (t : dtree) : Z :=
+  match t with Node n b ks => g n b + sumZ (map (tree_sum g) ks) end.
+
+Lemma tree_blocks_sum t : tree_blocks t = tree_sum (fun _ b => b) t.
+Proof.
+  induction t as [n b ks IH] using dtree_ind'. cbn [tree_blocks tree_sum]. f_equal. f_equal.
+  apply map_ext_Forall. exact IH.
+Qed.
+Lemma tree_ptr_size_sum t : tree_ptr_size t = tree_sum (fun n _ => ptr_record_length (zlen n)) t.
+Proof.
+  induction t as [n b ks IH] using dtree_ind'. cbn [tree_ptr_size tree_sum]. f_equal. f_equal.
+  apply map_ext_Forall. exact IH.
+Qed.
+
+Lemma sumZ_app a b : sumZ (a ++ b) = sumZ a + sumZ b.
+Proof. unfold sumZ. induction a as [|x a IH]; cbn [app fold_right] in *; lia. Qed.
+
+Lemma sumZ_cons x a : sumZ (x :: a) = x + sumZ a.
+Proof. reflexivity. Qed.
+
+Definition qsum (g : list Z -> Z -> Z) (q : list qitem) : Z :=
+  sumZ (map (fun it => tree_sum g (itree it)) q).
+
+Lemma qsum_child g i ks idx pos path :
+  qsum g (child_items_from i ks idx pos path) = sumZ (map (tree_sum g) ks).
+Proof.
+  revert i; induction ks as [|k ks IH]; intros i; [reflexivity|].
+  unfold qsum in *. cbn [child_items_from map]. rewrite !sumZ_cons, <- IH. reflexivity.
+Qed.
+
+Lemma go_sum g f q idx cur : (qsize q <= f)%nat ->
+  sumZ (map (fun r => g (d_name r) (d_blocks r)) (fst (go f q idx cur))) = qsum g q.
+Proof.
+  revert f q idx cur.
+  apply (go_ind (fun q idx cur res =>
+           sumZ (map (fun r => g (d_name r) (d_blocks r)) (fst res)) = qsum g q)).
+  - reflexivity.
+  - intros f nm bl ks pn pos path q idx cur Hf IH. cbn [fst map] in *.
+    rewrite sumZ_cons, IH. unfold qsum. rewrite map_app, sumZ_app.
+    fold (qsum g (child_items ks idx pos path)).
+    unfold child_items. rewrite qsum_child. cbn [map d_name d_blocks]. rewrite sumZ_cons.
+    unfold itree at 2. cbn [fst tree_sum]. lia.
+Qed.
+
+Lemma bfs_sum g start t :
+  sumZ (map (fun r => g (d_name r) (d_blocks r)) (bfs start t)) = tree_sum g t.
+Proof.
+  destruct t as [nm bl ks]. rewrite bfs_unfold. cbn [map d_name d_blocks tree_sum].
+  rewrite sumZ_cons. f_equal. rewrite go_sum by lia. apply qsum_child.
+Qed.
+
+(* consecutive extents: each directory starts where the previous one ends *)
+Fixpoint chain (e : Z) (rs : list dirrec) : Prop :=
+  match rs with [] => True | r :: rs' => d_extent r = e /\ chain (e + d_blocks r) rs' end.
+
+Lemma go_chain f q idx cur : (qsize q <= f)%nat ->
+  chain cur (fst (go f q idx cur)) /\
+  snd (go f q idx cur) = cur + sumZ (map d_blocks (fst (go f q idx cur))).
+Proof.
+  revert f q idx cur.
+  apply (go_ind (fun q idx cur res =>
+           chain cur (fst res) /\ snd res = cur + sumZ (map d_blocks (fst res)))).
+  - intros idx cur. cbn. split; [exact I|lia].
+  - intros f nm bl ks pn pos path q idx cur Hf [IH1 IH2].
+    cbn [fst snd chain map d_extent d_blocks]. split; [split; [reflexivity|exact IH1]|].
+    rewrite IH2, sumZ_cons. lia.
+Qed.
+
+Lemma chain_next e rs : chain e rs -> forall i a b,
+  nth_error rs i = Some a -> nth_error rs (S i) = Some b -> d_extent b = d_extent a + d_blocks a.
+Proof.
+  revert e; induction rs as [|r rs IH]; intros e H i a b Ha Hb; [destruct i; discriminate|].
+  destruct H as [He H]. destruct i as [|i].
+  - cbn in Ha. injection Ha as <-. destruct rs as [|r' rs']; [discriminate|].
+    cbn in Hb. injection Hb as <-. destruct H as [H _]. lia.
+  - exact (IH _ H i a b Ha Hb).
+Qed.
+
+Lemma chain_lower e rs : Forall (fun r => 0 <= d_blocks r) rs -> chain e rs ->
+  forall r, In r rs -> e <= d_extent r.
+Proof.
+  revert e; induction rs as [|x rs IH]; intros e Hf H r Hin; [destruct Hin|].
+  apply Forall_cons_iff in Hf. destruct Hf as [Hx Hf]. destruct H as [He H].
+  destruct Hin as [<-|Hin]; [lia|]. specialize (IH _ Hf H r Hin). lia.
+Qed.
+
+Lemma chain_disjoint e rs : Forall (fun r => 0 <= d_blocks r) rs -> chain e rs ->
+  forall i j a b, (i < j)%nat -> nth_error rs i = Some a -> nth_error rs j = Some b ->
+  d_extent a + d_blocks a <= d_extent b.
+Proof.
+  revert e; induction rs as [|x rs IH]; intros e Hf H i j a b Hij Ha Hb;
+    [destruct i; discriminate|].
+  apply Forall_cons_iff in Hf. destruct Hf as [Hx Hf]. destruct H as [He H].
+  destruct j as [|j]; [lia|]. cbn [nth_error] in Hb. destruct i as [|i].
+  - cbn in Ha. injection Ha as <-. apply nth_error_In in Hb.
+    pose proof (chain_lower _ _ Hf H b Hb). lia.
+  - cbn [nth_error] in Ha. apply (IH _ Hf H i j); [lia|assumption|assumption].
+Qed.
+
+Fixpoint blocks_okb (t : dtree) : bool :=
+  match t with Node _ b ks => (0 <=? b) && forallb blocks_okb ks end.
+
+Lemma blocks_ok_subtree pos : forall T t', blocks_okb T = true -> subtree T pos = Some t' ->
+  blocks_okb t' = true.
+Proof.
+  induction pos as [|i p IH]; intros T t' HT H; cbn [subtree] in H.
+  - injection H as <-. exact HT.
+  - destruct (nth_error (tkids T) i) as [k|] eqn:E; [|discriminate].
+    apply (IH k t'); [|exact H]. destruct T as [n b ks]. cbn [blocks_okb tkids] in *.
+    apply andb_prop in HT. destruct HT as [_ HT]. rewrite forallb_forall in HT.
+    apply HT. eapply nth_error_In. exact E.
+Qed.
+
+(* THEOREM 3 *)
+Theorem extents_disjoint_consecutive start t :
+  chain start (bfs start t) /\
+  (forall i a b, nth_error (bfs start t) i = Some a -> nth_error (bfs start t) (S i) = Some b ->
+     d_extent b = d_extent a + d_blocks a) /\
+  assign_end start t = start + tree_blocks t /\
+  map (fun p : ptuple => snd (fst (fst p))) (ptable start t) = assign_extents start t /\
+  (blocks_okb t = true -> forall i j a b, (i < j)%nat ->
+     nth_error (bfs start t) i = Some a -> nth_error (bfs start t) j = Some b ->
+     d_extent a + d_blocks a <= d_extent b).
+Proof.
+  assert (Hc : chain start (bfs start t) /\ assign_end start t = start + tree_blocks t).
+  { rewrite tree_blocks_sum, <- (bfs_sum (fun _ b => b) start t).
+    destruct t as [nm bl ks]. unfold assign_end, reassign. rewrite bfs_unfold.
+    destruct (go_chain _ (child_items ks 1 [] []) 2 (start + bl) (le_n _)) as [H1 H2].
+    cbn [snd chain d_extent d_blocks map]. split; [split; [reflexivity|exact H1]|].
+    rewrite H2, sumZ_cons. lia. }
+  destruct Hc as [Hc He]. split; [exact Hc|]. split; [exact (chain_next _ _ Hc)|].
+  split; [exact He|]. split.
+  { unfold ptable, assign_extents. rewrite map_map. reflexivity. }
+  intros Hb. apply (chain_disjoint start); [|exact Hc]. apply Forall_forall. intros r Hr.
+  destruct (bfs_describes_tree _ _ _ Hr) as (ks & Hs & _).
+  apply (blocks_ok_subtree _ _ _ Hb) in Hs. cbn [blocks_okb] in Hs. lia.
+Qed.
+
+(* THEOREM 4 *)
+Definition plen (r : dirrec) : Z := ptr_record_length (zlen (d_name r)).
+
+Theorem ptable_size_sum start t : ptable_size t = sumZ (map plen (bfs start t)).
+Proof.
+  unfold ptable_size. rewrite tree_ptr_size_sum.
+  rewrite <- (bfs_sum (fun n _ => ptr_record_length (zlen n)) start t). reflexivity.
+Qed.
+
+Theorem ptable_size_root n b ks : zlen n = 1 ->
+  ptable_size (Node n b ks) = 10 + sumZ (map ptable_size ks).
+Proof. intros H. unfold ptable_size. cbn [tree_ptr_size]. rewrite H. reflexivity. Qed.
+
+Lemma opt_concat_zlen {A} (enc : A -> option (list Z)) (h : A -> Z) rs :
+  (forall r a, enc r = Some a -> zlen a = h r) ->
+  forall b, opt_concat (map enc rs) = Some b -> zlen b = sumZ (map h rs).
+Proof.
+  intros He. induction rs as [|r rs IH]; intros b H; cbn [map opt_concat] in *.
+  - injection H as <-. reflexivity.
+  - destruct (enc r) as [a|] eqn:E; [|discriminate].
+    destruct (opt_concat (map enc rs)) as [b'|] eqn:E2; [|discriminate]. injection H as <-.
+    rewrite zlen_app, (He _ _ E), sumZ_cons, (IH _ eq_refl). reflexivity.
+Qed.
+
+Theorem ptable_bytes_length start t b :
+  ptable_bytes_le start t = Some b \/ ptable_bytes_be start t = Some b -> zlen b = ptable_size t.
+Proof.
+  rewrite (ptable_size_sum start t). intros [H|H];
+    (eapply opt_concat_zlen; [|exact H]); intros r a E; unfold plen;
+    rewrite <- ptr_len_agrees_with_generated.
+  - exact (ptr_record_len _ _ E).
+  - exact (ptr_record_len_be _ _ E).
+Qed.
+
+Lemma track_add_fst st l : fst (track_add st l) = fst st + ptr_record_length l.
+Proof. unfold track_add, add_to_ptr_size. destruct (Z.gtb _ _); reflexivity. Qed.
+
+Lemma fold_track l : forall st,
+  fst (fold_left track_add l st) = fst st + sumZ (map ptr_record_length l).
+Proof.
+  induction l as [|x l IH]; intros st; cbn [fold_left map]; [unfold sumZ; cbn; lia|].
+  rewrite IH, track_add_fst, sumZ_cons. lia.
+Qed.
+
+Lemma sumZ_perm a b : Permutation a b -> sumZ a = sumZ b.
+Proof. induction 1; rewrite ?sumZ_cons; lia. Qed.
+
+(* path_tbl_size after new() and one add_to_ptr_size per non-root directory, in any order of
+   creation, is the byte length of the table *)
+Theorem tracked_size_is_ptable_size start t order : zlen (tname t) = 1 ->
+  Permutation order (map (fun r => zlen (d_name r)) (tl (bfs start t))) ->
+  fst (fold_left track_add order track_init) = ptable_size t.
+Proof.
+  intros Hn Hp. rewrite fold_track, (ptable_size_sum start t).
+  rewrite (sumZ_perm _ _ (Permutation_map ptr_record_length Hp)), map_map.
+  destruct t as [nm bl ks]. rewrite bfs_unfold. cbn [tl map tname] in *. rewrite sumZ_cons.
+  unfold plen at 1. cbn [d_name]. rewrite Hn. reflexivity.
+Qed.
